@@ -4,7 +4,9 @@
    (ext + 1 + k) mod 2^16, and the state after the call is ext + number of packets, so numbering
    continues across calls, including GeneratePadding and calls that return nothing.
    C06_abs_send_time: with the extension enabled the train is the same except that its last
-   packet carries one one-byte-profile element (id, 24-bit 6.18 send time).  C06_history: over any
+   packet carries one element (id, 24-bit 6.18 send time) - one-byte profile for ids 1-14, two-byte
+   profile for ids 15-255 - and C06_mtu_abs: it still serialises to at most MTU bytes (the budget
+   accounts for the form the id requires; D24).  C06_history: over any
    sequence of Packetize / GeneratePadding / SkipSamples / EnableAbsSendTime calls every call
    numbers its packets from the state's extended value + 1 and advances the state by exactly the
    numbers it took (also when it returns nothing). *)
@@ -15,7 +17,7 @@ Import ListNotations.
 Open Scope Z_scope.
 
 Theorem C06_packetize : forall pay p payload samples now, sane (pz_seq p) -> payload <> [] ->
-  let frags := pay (u16 (pz_mtu p - (if pz_abs p =? 0 then 12 else 20))) payload in
+  let frags := pay (u16 (pz_mtu p - abs_overhead (pz_abs p))) payload in
   roc (pz_seq p) + zlen frags < 18446744073709551616 ->
   let '(p', pkts) := packetize pay p payload samples now in
   sane (pz_seq p') /\ ext (pz_seq p') = ext (pz_seq p) + zlen frags /\
@@ -64,14 +66,27 @@ Proof. exact padding_packet_wf. Qed.
 Print Assumptions C06_padding_valid.
 
 Theorem C06_abs_send_time : forall pay p payload samples now, sane (pz_seq p) -> payload <> [] ->
-  1 <= pz_abs p <= 14 ->
-  let frags := pay (u16 (pz_mtu p - 20)) payload in
+  1 <= pz_abs p <= 255 ->
+  let frags := pay (u16 (pz_mtu p - abs_overhead (pz_abs p))) payload in
   frags <> [] -> roc (pz_seq p) + zlen frags < 18446744073709551616 ->
   exists init lastp,
     expected_train p (ext (pz_seq p)) frags = init ++ [lastp] /\
     snd (packetize pay p payload samples now) = init ++ [with_abs (pz_abs p) (abs_bytes now) lastp].
 Proof. exact packetize_abs. Qed.
 Print Assumptions C06_abs_send_time.
+
+(* ... and the train stays within the MTU with the extension on its last packet, in the one-byte
+   form (ids 1-14: 8 more bytes) as in the two-byte form (ids 15-255: 12 more bytes): the budget
+   handed to the payloader is MTU - abs_overhead id, and the last packet grows by abs_overhead id - 12 *)
+Theorem C06_mtu_abs : forall p e frags id b mtu, 1 <= id <= 255 -> zlen b = 3 ->
+  Forall (fun f => zlen f <= mtu - abs_overhead id) frags ->
+  forall init lastp, expected_train p e frags = init ++ [lastp] ->
+  Forall (fun pk => packet_marshal_size pk <= mtu) (init ++ [with_abs id b lastp]).
+Proof. exact train_abs_within_mtu. Qed.
+Print Assumptions C06_mtu_abs.
+
+Example C06_abs_overhead_values : abs_overhead 0 = 12 /\ abs_overhead 14 = 20 /\ abs_overhead 15 = 24 /\ abs_overhead 255 = 24.
+Proof. repeat split. Qed.
 
 Theorem C06_history : forall pay ops p, sane (pz_seq p) -> bounded pay p ops -> history_ok pay p ops.
 Proof. exact history_numbering. Qed.
